@@ -283,6 +283,19 @@ def valueUnitsTail (nm : Str) (kind : Kind) (info : TyInfo) (dims : Option (List
     .ok { kind, name := some nm, info, dims, raw := some (.text (decode v)), units := u }
   else .error .fail                       -- "Code cannot be parsed"
 
+/-- `ModNode.is_node` on the text after `=`.  When text is left over the real recogniser loop goes
+    on with `part_type` on the rest: if a type keyword follows, the line is re-read as a typed
+    definition that keeps leftovers of the modification (`a = 7 a  uint32=235 mg` becomes
+    `a uint32 = 235 mg`).  That re-reading is outside the grammar and not modelled. -/
+def modTail (nm : Str) (afterEq : Str) : R Node := do
+  let (v, r1) ← partValue afterEq
+  let (u, r2) := partUnits r1
+  if endOrComment r2 then
+    .ok { kind := .mod, name := some nm, info := {}, dims := none, raw := some (.text (decode v)), units := u }
+  else match partType r2 with
+    | .ok _ => .error .unsupported
+    | .error _ => .error .fail                -- "Type not recognized"
+
 /-- the recognisers after `part_name`; `rest` is the text behind the name -/
 def afterName (nm : Str) (rest : Str) : R Node :=
   if endOrComment rest then .ok { kind := .group, name := some nm }
@@ -291,7 +304,7 @@ def afterName (nm : Str) (rest : Str) : R Node :=
     | '{' :: _ => if rest.contains '}' then .error .unsupported else .error .fail
     | _ =>
     match partEqual rest with
-    | some v => valueUnitsTail nm .mod {} none v
+    | some v => modTail nm v
     | none => do
       let (kind, info, r0) ← partType rest
       let (dims, r1) ← partDimension r0
